@@ -35,11 +35,17 @@ func (ddpIrType).FreeFunc
   trusted
   ensures result != ddp_runtime_error_irfun
 
-// TRUSTED frame: recording a temporary only appends to the scope's list
-func (*scope).addTemporary
-  trusted
-  modifies compiler.scope
+// C05: the compile-time ownership ledger. Recording a temporary appends exactly one unprotected entry for it
+func (*scope).addTemporary [C05]
+  requires scope != nil
+  modifies compiler.scope, []compiler.varwrapper
   ensures result0 == val && result1 == typ
+  ensures len(scope.temporaries) == old(len(scope.temporaries)) + 1
+  ensures scope.temporaries[old(len(scope.temporaries))].val == val && scope.temporaries[old(len(scope.temporaries))].typ == typ &&
+          !scope.temporaries[old(len(scope.temporaries))].isRef && !scope.temporaries[old(len(scope.temporaries))].protected
+  ensures forall k int :: 0 <= k && k < old(len(scope.temporaries)) ==>
+            scope.temporaries[k].val == old(scope.temporaries[k].val) && scope.temporaries[k].typ == old(scope.temporaries[k].typ) &&
+            scope.temporaries[k].protected == old(scope.temporaries[k].protected) && scope.temporaries[k].isRef == old(scope.temporaries[k].isRef)
 
 // err panics with a CompilerError ("Unerwarteter Fehler")
 func (*compiler).err
@@ -386,4 +392,40 @@ func (*compiler).declareImportedFuncDecl [C18]
   loop 1 invariant retOK(c, decl.ReturnType, retType)
   loop 1 invariant hasReturnParam == !retType.IsPrimitive()
   loop 1 invariant retTypeIr == (retType.IsPrimitive() ? valOf(retType) : valOf(box(c.void)))
+
+// ================= C05: ownership ledger of a scope =================
+// claiming hands the LAST entry recorded for val to the caller: it disappears from the ledger (so the scope will not
+// free it), every other entry stays, in order
+func (*scope).claimTemporary [C05]
+  requires scope != nil
+  modifies compiler.scope, []compiler.varwrapper
+  ensures result == val
+  ensures len(scope.temporaries) == old(len(scope.temporaries)) - 1
+  ensures exists j int :: 0 <= j && j < old(len(scope.temporaries)) && old(scope.temporaries[j].val) == val &&
+            (forall k int :: j < k && k < old(len(scope.temporaries)) ==> old(scope.temporaries[k].val) != val) &&
+            (forall k int :: 0 <= k && k < j ==> scope.temporaries[k].val == old(scope.temporaries[k].val) && scope.temporaries[k].typ == old(scope.temporaries[k].typ) && scope.temporaries[k].protected == old(scope.temporaries[k].protected)) &&
+            (forall k int :: j <= k && k < old(len(scope.temporaries)) - 1 ==> scope.temporaries[k].val == old(scope.temporaries[k + 1].val) && scope.temporaries[k].typ == old(scope.temporaries[k + 1].typ) && scope.temporaries[k].protected == old(scope.temporaries[k + 1].protected))
+  loop 0 invariant -1 <= i && i < len(scope.temporaries) && scope.temporaries == old(scope.temporaries)
+  loop 0 invariant forall k int :: i < k && k < len(scope.temporaries) ==> scope.temporaries[k].val != val
+  loop 0 invariant forall k int :: 0 <= k && k < len(scope.temporaries) ==> scope.temporaries[k].val == old(scope.temporaries[k].val) && scope.temporaries[k].typ == old(scope.temporaries[k].typ) && scope.temporaries[k].protected == old(scope.temporaries[k].protected)
+
+// protecting / unprotecting flips the flag of the last entry recorded for val and nothing else
+func (*scope).protectTemporary [C05]
+  requires scope != nil
+  modifies []compiler.varwrapper
+  ensures exists j int :: 0 <= j && j < len(scope.temporaries) && scope.temporaries[j].val == val && scope.temporaries[j].protected &&
+            (forall k int :: j < k && k < len(scope.temporaries) ==> scope.temporaries[k].val != val) &&
+            (forall k int :: 0 <= k && k < len(scope.temporaries) && k != j ==> scope.temporaries[k].protected == old(scope.temporaries[k].protected))
+  ensures forall k int :: 0 <= k && k < len(scope.temporaries) ==> scope.temporaries[k].val == old(scope.temporaries[k].val) && scope.temporaries[k].typ == old(scope.temporaries[k].typ)
+  loop 0 invariant -1 <= i && i < len(scope.temporaries)
+  loop 0 invariant forall k int :: i < k && k < len(scope.temporaries) ==> scope.temporaries[k].val != val
+func (*scope).unprotectTemporary [C05]
+  requires scope != nil
+  modifies []compiler.varwrapper
+  ensures exists j int :: 0 <= j && j < len(scope.temporaries) && scope.temporaries[j].val == val && !scope.temporaries[j].protected &&
+            (forall k int :: j < k && k < len(scope.temporaries) ==> scope.temporaries[k].val != val) &&
+            (forall k int :: 0 <= k && k < len(scope.temporaries) && k != j ==> scope.temporaries[k].protected == old(scope.temporaries[k].protected))
+  ensures forall k int :: 0 <= k && k < len(scope.temporaries) ==> scope.temporaries[k].val == old(scope.temporaries[k].val) && scope.temporaries[k].typ == old(scope.temporaries[k].typ)
+  loop 0 invariant -1 <= i && i < len(scope.temporaries)
+  loop 0 invariant forall k int :: i < k && k < len(scope.temporaries) ==> scope.temporaries[k].val != val
 @*/
